@@ -243,8 +243,9 @@ func cmdCheck(args []string) {
 			continue
 		}
 		if kf := isKnown(o.Name); kf != nil {
+			// a listed genuine defect: reported, not counted among the obligations
+			// this run claims (the clause is known not to hold)
 			knownHit = append(knownHit, kf.text)
-			claimed++
 			continue
 		}
 		if o.Cover {
@@ -381,6 +382,17 @@ func cmdCheck(args []string) {
 	}
 
 	// ---- report ----
+	{
+		seen := map[string]bool{}
+		var uniq []string
+		for _, k := range knownHit {
+			if !seen[k] {
+				seen[k] = true
+				uniq = append(uniq, k)
+			}
+		}
+		knownHit = uniq
+	}
 	for _, k := range knownHit {
 		fmt.Printf("KNOWN-FINDING: %s\n", k)
 	}
